@@ -13,7 +13,7 @@ the comparison.
 import ast
 
 from ..algebra import Unsupported, const, sym, derivative, substitute
-from ..region import Region, RegionLifter, Vec, Obj, R, Raised
+from ..region import Region, RegionLifter, Vec, Mat, Obj, R, Raised
 from ..model import AnalysisError, names_in
 from .control import loc
 
@@ -105,9 +105,30 @@ def _check(A, ctx, rule, key, cls, f, inner, coef, chosen, pen):
     spec = A.prog.spec_of(pen) or []
     pobj = Obj(pen, {nm: sym(nm) for nm, t in spec if "[" not in t and "bool" not in t})
     sobj = Obj(cls, {"penalty": pobj})
-    env = {"self": sobj, "n_features": 3, coef: Vec([sym("w0"), sym("w1"), const(0)])}
-    # inner penalty as the code builds it
-    L.assign(inner[1].targets[0], L.ev(inner[1].value, env, f), env, f)
+    params = f.call_params()
+    Xd = Mat(Vec(sym(f"xr{i}{j}") for j in range(3)) for i in range(2))
+    for i in range(2):
+        for j in range(3):
+            rg.values[f"xr{i}{j}"] = 0.3 + 0.2 * i - 0.1 * j
+    env = {"self": sobj}
+    if params:
+        env[params[0]] = Xd
+    if len(params) > 1:
+        env[params[1]] = Vec([sym("yr0"), sym("yr1")])
+        rg.values.update(yr0=0.7, yr1=-0.4)
+    # the statements before the loop, as far as they can be lifted (sizes, the inner penalty):
+    # whatever the locals are called
+    for st in f.node.body:
+        if isinstance(st, (ast.For, ast.While)):
+            break
+        if isinstance(st, ast.Assign):
+            try:
+                L.block([st], env, f)
+            except (Unsupported, Raised):
+                pass
+    env[coef] = Vec([sym("w0"), sym("w1"), const(0)])
+    if inner[0] not in env:
+        raise Unsupported("inner penalty not constructible from the statements before the loop")
     P = env[inner[0]]
     if not isinstance(P, Obj) or "weights" not in P.attrs or "alpha" not in P.attrs:
         raise Unsupported("inner penalty has no alpha / weights")
